@@ -28,7 +28,7 @@ def pDefVal : P DefVal := fun ts => do
   else if s = "!" then pure (.other, ts)
   else pure (.sym (f != 0), ts)
 
-/-- `rel ISREL TRANSITIVE HASRECIP HASTERM TARGET|- SUBJECT k (ID|- n (REF|- RELSYM|-|! FITS RECIPSYM|-|! RFITS)*n)*k` -/
+/-- `rel ISREL TRANSITIVE HASRECIP HASTERM TARGET|- SUBJECT k (KEY|- ID|- n (REF|- RELSYM|-|! FITS RECIPSYM|-|! RFITS)*n)*k` -/
 def relReq (ts : List String) : String :=
   match (do
     let (isRel, ts) ← pNat ts
@@ -39,6 +39,7 @@ def relReq (ts : List String) : String :=
     let (si, ts) ← pNat ts
     let (k, ts) ← pNat ts
     let (recs, _) ← pRep (fun ts => do
+      let (key, ts) ← pHO ts
       let (id, ts) ← pHO ts
       let (n, ts) ← pNat ts
       let (es, ts) ← pRep (fun ts => do
@@ -46,7 +47,7 @@ def relReq (ts : List String) : String :=
         let (rel, ts) ← pDefVal ts
         let (rc, ts) ← pDefVal ts
         pure (({ ref := r, rel := rel, recip := rc } : Entry), ts)) n ts
-      pure (({ id := id, entries := es } : Rec), ts)) k ts
+      pure (({ key := key, id := id, entries := es } : Rec), ts)) k ts
     let subject ← recs[si]?
     pure (okBool (hasRelationship recs (isRel != 0) (tr != 0) (hr != 0) target subject ((recIds recs).length + 1)))) with
   | some s => s
